@@ -394,7 +394,7 @@ _check_offsets()
 ATOM_FEATURES = ["plain", "alt-lo-hi", "alt-hi-lo", "alt-tie", "alt3-lo-hi-mid", "alt3-mid-lo-hi", "altblock-lo-hi", "altblock-hi-lo",
                  "rep-lo-hi", "rep-hi-lo", "rep-tie",
                  "clash300-lower", "clash300-higher", "clash300-tie", "clash490-lower", "miss510", "miss700",
-                 "clash-next-residue"]
+                 "clash-next-residue", "clash-chain-down", "clash-chain-up"]
 NULL_FEATURES = ["occ-absent", "occ-absent-repeated", "occ-absent-clash"]
 LAYOUTS = ["one", "one-num3", "two-shared-far", "two-shared-near", "two-shared-occ", "two-disjoint-far",
            "two-disjoint-near", "three-shared", "two-renumbered", "three-unordered", "two-descending"]
@@ -482,6 +482,12 @@ def build_model(rng, m, feats, *, chains=1, icn="?", ocn="?", origin=None, allow
                 lines.append(_line(m, res, names[0], _add(p0, _REP_SHIFT), ob))
             else:
                 block_b.append(_line(m, res, names[0], _add(p0, _REP_SHIFT), ob))   # repeated after the other atoms
+        elif feat.startswith("clash-chain"):
+            # three atoms in a row, 0.4 A apart (the outer two do not clash), occupancies falling or rising
+            occs = (80, 60, 40) if feat.endswith("down") else (40, 60, 80)
+            sixth = next(x for x in _NAMES[:18] if x not in names)      # (names[4] may be owed to the previous residue)
+            for q, (nm, oc) in enumerate(zip((names[0], names[3], sixth), occs)):
+                lines.append(_line(m, res, nm, _add(p0, (400 * q, 0, 0)), oc))
         elif feat.startswith("clash") or feat.startswith("miss"):
             digits = "".join(ch for ch in feat if ch.isdigit())
             d = int(digits) if digits else 300
@@ -600,6 +606,8 @@ def gen_tables(count, seed):
         nres = rng.choice([1, 2, 2, 3, 4])
         feats = [f1] + [rng.choice(ATOM_FEATURES) for _ in range(nres - 1)]
         rng.shuffle(feats)
+        if layout == "two-shared-occ":      # (that layout rewrites occupancies: a chain's would no longer all differ)
+            feats = ["clash300-lower" if f.startswith("clash-chain") else f for f in feats]
         # null-marker classes are kept apart from the multi-model layouts (one understood defect per table)
         cls = k % 7
         icn, ocn = "?", "?"
